@@ -16,8 +16,9 @@ def keysS (l : List Nat) : String := if l.isEmpty then "-" else ",".intercalate 
 def outEvents (o : CacheOut) : String := s!"evict={keysS o.evicted} expired={keysS (sortNat o.expired)}"
 
 def runCache (r : Report) (s : Section) : Report := Id.run do
-  let limit := kvNat s.cfg "limit" 0
-  let expire := kvNat s.cfg "expire" 0
+  -- `WithLimit(limit)` installs a keyLru only for limit > 0; zero and negative limits mean "no limit"
+  let limit := (kvInt s.cfg "limit" 0).toNat
+  let expireI := kvInt s.cfg "expire" 0
   let firstObs := match s.lines.head? with | some l => l.obs | none => []
   let interval := kvNat firstObs "interval" 0
   let slots := kvNat firstObs "slots" 0
@@ -26,34 +27,48 @@ def runCache (r : Report) (s : Section) : Report := Id.run do
   if interval = 0 ∨ slots = 0 then return r.mismatch s.idx 0 "interval=… slots=… on the first line" (joinSp firstObs)
   let mut c : Cache := Cache.new limit slots
   let mut a : Spec.ACache := Spec.ACache.new limit
+  let mut hit := 0
+  let mut miss := 0
+  if kvInt s.cfg "limit" 0 < 0 then r := r.addCover "cache-limit-negative"
+  if expireI ≤ 0 then r := r.addCover "cache-default-expiry-nonpositive"
   for l in s.lines do
     r := { r with ops := r.ops + 1 }
     let obs := l.obs.takeWhile (· ≠ "|")
     let impl := joinSp obs
     -- jittered expiry observed by the harness (input of model and spec)
-    let ns := kvNat obs "ns" 0
+    let nsI := kvInt obs "ns" 0
+    let ns := nsI.toNat
     let judge := fun (r : Report) (m sp : String) =>
       let r := if m ≠ impl then r.mismatch s.idx l.idx m impl else r
       if sp ≠ impl then r.violation s.idx l.idx s!"struct=cache op=[{joinSp l.op}] spec=[{sp}] impl=[{impl}]" else r
-    let jitter := fun (r : Report) (base : Nat) =>
-      -- [0.95, 1.05]·base, ±1 ns for the float64 product
-      let r := if 20 * ns + 20 < 19 * base ∨ 20 * ns > 21 * base + 20 then
-          r.violation s.idx l.idx s!"struct=cache op=[{joinSp l.op}] expiry {ns} outside [0.95,1.05]*{base}" else r
+    let jitter := fun (r : Report) (baseI : Int) =>
+      -- [0.95, 1.05]·base, ±1 ns for the float64 product (a non-positive base stays non-positive)
+      if baseI ≤ 0 then
+        let r := if nsI > 0 ∨ 20 * nsI - 20 > 19 * baseI ∨ 20 * nsI + 20 < 21 * baseI then
+          r.violation s.idx l.idx s!"struct=cache op=[{joinSp l.op}] expiry {nsI} outside [0.95,1.05]*{baseI}" else r
+        r.addCover "cache-jitter-nonpositive-base"
+      else
+      let base := baseI.toNat
+      let r := if nsI < 0 ∨ 20 * ns + 20 < 19 * base ∨ 20 * ns > 21 * base + 20 then
+          r.violation s.idx l.idx s!"struct=cache op=[{joinSp l.op}] expiry {nsI} outside [0.95,1.05]*{base}" else r
       if 20 * ns ≤ 19 * base + 20 then r.addCover "cache-jitter-low-end"
       else if 20 * ns + 20 ≥ 21 * base then r.addCover "cache-jitter-high-end" else r
     match l.op with
     | ["set", k, v, e, _] =>
-      match k.toNat?, v.toNat?, e.toNat? with
+      match k.toNat?, v.toNat?, e.toInt? with
       | some k, some v, some e =>
         let ticks := ns / interval
         r := jitter r e
         r := r.addCover (if ahas c.data k then "cache-set-existing" else "cache-set-new")
         if ticks > slots then r := r.addCover "cache-expiry-multirev"
-        if ticks = 0 then r := r.addCover "cache-expiry-subsecond"
-        let (c', o) := c.step (.set k v ticks)
-        let (a', ao) := a.step (.set k v ticks)
+        if ticks = 0 ∧ nsI > 0 then r := r.addCover "cache-expiry-subsecond"
+        if nsI ≤ 0 then
+          -- SetTimer rejects a delay ≤ 0: no timer is set, a pending one keeps running
+          r := r.addCover (if C12.Spec.hasKey a.timers k then "cache-expiry-nonpositive-keeps-old-timer" else "cache-expiry-nonpositive-no-timer")
+        let (c', o) := if nsI ≤ 0 then CacheG.setNoTimer C12.step c k v else c.step (.set k v ticks)
+        let (a', ao) := if nsI ≤ 0 then CacheG.setNoTimer C12.Spec.step a k v else a.step (.set k v ticks)
         if ¬ o.evicted.isEmpty then r := r.addCover "cache-evict"
-        r := judge r s!"ns={ns} {outEvents o}" s!"ns={ns} {outEvents ao}"
+        r := judge r s!"ns={nsI} {outEvents o}" s!"ns={nsI} {outEvents ao}"
         if ao.evicted.length > 0 ∧ a.data.length < limit then
           r := r.violation s.idx l.idx s!"struct=cache evicted below the limit op=[{joinSp l.op}]"
         c := c'; a := a'
@@ -64,6 +79,7 @@ def runCache (r : Report) (s : Section) : Report := Id.run do
         let (c', o) := c.step (.get k)
         let (a', ao) := a.step (.get k)
         r := r.addCover (if o.result.isSome then "cache-get-hit" else "cache-get-miss")
+        if ao.result.isSome then hit := hit + 1 else miss := miss + 1
         let f := fun (x : Option Nat) => match x with | some v => toString v | none => "none"
         r := judge r (f o.result) (f ao.result)
         c := c'; a := a'
@@ -80,13 +96,16 @@ def runCache (r : Report) (s : Section) : Report := Id.run do
       | some k, some v =>
         if f ≠ "ok" ∧ f ≠ "fail" then r := r.mismatch s.idx l.idx "bad-op" (joinSp l.op) else
         let ticks := ns / interval
-        r := jitter r expire
-        let (c', o) := c.step (.take k v (f = "fail") ticks)
-        let (a', ao) := a.step (.take k v (f = "fail") ticks)
+        r := jitter r expireI
+        let (c', o) := if nsI ≤ 0 then CacheG.takeNoTimer C12.step c k v (f = "fail") else c.step (.take k v (f = "fail") ticks)
+        let (a', ao) := if nsI ≤ 0 then CacheG.takeNoTimer C12.Spec.step a k v (f = "fail") else a.step (.take k v (f = "fail") ticks)
+        -- statistics: found = hit, loaded = miss, load failed = neither
+        if ¬ ao.loaded then hit := hit + 1 else if f ≠ "fail" then miss := miss + 1
+        if nsI ≤ 0 ∧ ao.loaded ∧ f ≠ "fail" then r := r.addCover "cache-take-load-nonpositive-expiry"
         r := r.addCover (if ¬ o.loaded then "cache-take-hit" else if f = "fail" then "cache-take-load-fails" else "cache-take-load")
         let fmt := fun (o : CacheOut) =>
           let res := match o.result with | some x => toString x | none => "err"
-          s!"{res} calls={if o.loaded then 1 else 0} ns={ns} {outEvents o}"
+          s!"{res} calls={if o.loaded then 1 else 0} ns={nsI} {outEvents o}"
         r := judge r (fmt o) (fmt ao)
         -- the property's words: the loader runs only on a miss
         if kvNat obs "calls" 0 > 0 ∧ (alookup a.data k).isSome then
@@ -101,7 +120,7 @@ def runCache (r : Report) (s : Section) : Report := Id.run do
       c := c'; a := a'
     | ["st"] =>
       r := r.addCover "cache-st"
-      let fmt := fun (n : Nat) (lru : List Nat) (t : Nat) => s!"size={n} lru={keysS (if limit = 0 then [] else lru)} timers={t}"
+      let fmt := fun (n : Nat) (lru : List Nat) (t : Nat) => s!"size={n} lru={keysS (if limit = 0 then [] else lru)} timers={t} hit={hit} miss={miss}"
       r := judge r (fmt c.data.length c.lru c.timers.entries.length) (fmt a.data.length a.lru a.timers.length)
       -- the property's words: never more than `limit` entries
       if limit > 0 ∧ kvNat obs "size" 0 > limit then
